@@ -253,3 +253,79 @@ Proof.
   - destruct (io_read_timeout _ _ _ _ Eio Hn) as (T0 & E1 & _). discriminate.
   - injection H as <- <-. congruence.
 Qed.
+
+(* ------------------------------------------------------------------ one-step unfoldings of the loops *)
+Lemma read_iter_loop_step f start tmo mx got acc c :
+  read_iter_loop (S f) start tmo mx got acc c =
+  match iter_step start tmo (maxread_of mx got) c with
+  | (STimeout, c') => (rev acc, ETimeout, c')
+  | (SBlocked, c') => (rev acc, EBlocked, c')
+  | (SDeath e mt, c') => (rev acc, EDeath e mt, c')
+  | (SData new, c') =>
+      if match mx with Some m0 => Nat.eqb (got + length new) m0 | None => false end
+      then (rev (new :: acc), Ret tt, c')
+      else read_iter_loop f start tmo mx (got + length new) (new :: acc) c'
+  end.
+Proof. reflexivity. Qed.
+
+Lemma expect_loop_step f start tmo pats buf c :
+  expect_loop (S f) start tmo pats buf c =
+  match iter_step start tmo READ_CHUNK_SIZE c with
+  | (STimeout, c') => (ETimeout, c')
+  | (SBlocked, c') => (EBlocked, c')
+  | (SDeath e mt, c') => (EDeath e mt, c')
+  | (SData new, c') =>
+      match try_patterns 0 pats (buf ++ new) with
+      | Some r => (Ret r, c')
+      | None => expect_loop f start tmo pats (buf ++ new) c'
+      end
+  end.
+Proof. reflexivity. Qed.
+
+Lemma rut_loop_step f start tmo buf c :
+  rut_loop (S f) start tmo buf c =
+  match iter_step start tmo READ_CHUNK_SIZE c with
+  | (STimeout, c') => (Ret (text buf), c')
+  | (SBlocked, c') => (EBlocked, c')
+  | (SDeath e mt, c') => (EDeath e mt, c')
+  | (SData new, c') => rut_loop f start tmo (buf ++ new) c'
+  end.
+Proof. reflexivity. Qed.
+
+Lemma readline_loop_step f start tmo le line c :
+  readline_loop (S f) start tmo le line c =
+  match read 1 (match tmo with None => None | Some T => Some (T - (now (io c) - start))%Z end) c with
+  | (Ret b, c') =>
+      if is_suffix le (line ++ b) then (Ret (text (line ++ b)), c')
+      else readline_loop f start tmo le (line ++ b) c'
+  | (e, c') => (lift_err e, c')
+  end.
+Proof. reflexivity. Qed.
+
+Lemma chunk_pos : 0 < READ_CHUNK_SIZE.
+Proof. apply Nat.ltb_lt. vm_compute. reflexivity. Qed.
+
+(* the transport never returns more than requested (no well-formedness needed) *)
+Lemma io_read_len n tmo t d t' : io_read n tmo t = (RData d, t') -> length d <= n.
+Proof.
+  unfold io_read. destruct n as [|n'].
+  - intros [= <- _]. simpl. lia.
+  - cbv zeta. destruct (pend (log_read (S n') tmo t)) as [|[at_ dd] rest].
+    + destruct tmo; discriminate.
+    + unfold deliver. destruct (at_ <=? _)%Z.
+      * intros [= <- _]. exact (firstn_le_length (S n') dd).
+      * destruct tmo as [T|].
+        -- destruct (at_ <? _)%Z; [|discriminate]. intros [= <- _]. exact (firstn_le_length (S n') dd).
+        -- intros [= <- _]. exact (firstn_le_length (S n') dd).
+Qed.
+
+Lemma iter_step_len start tmo n c new c' :
+  iter_step start tmo n c = (SData new, c') -> length new <= n.
+Proof.
+  unfold iter_step.
+  destruct (match match tmo with Some T => Some (T - (now (io c) - start))%Z | None => None end with
+            | Some r0 => (r0 <=? 0)%Z | None => false end); [discriminate|].
+  destruct (io_read _ _ (io c)) as [res io'] eqn:Eio. destruct res as [d| |]; try discriminate.
+  destruct (check d _) as [[[e mt]|] c2]; [discriminate|].
+  intros [= <- _]. eapply io_read_len; eauto.
+Qed.
